@@ -247,7 +247,14 @@ func (in *Interp) Eval(env *Env, v *V) (*V, *Err) {
 	}
 	switch v.K {
 	case KSym:
-		return in.lookup(env, v.S, v)
+		x, e := in.lookup(env, v.S, v)
+		if e == nil && x.K == KFun && x.Fn.Builtin == nil && x.Fn.Special == nil {
+			// a function value remembers the symbol it was fetched through
+			c := *x
+			c.Via = localName(v.S)
+			return &c, nil
+		}
+		return x, e
 	case KList:
 		if len(v.L) == 0 {
 			return Nil(), nil
@@ -333,6 +340,9 @@ func (in *Interp) Apply(f *V, args []*V, site *sx.N, name string) (*V, *Err) {
 	fn := f.Fn
 	if name == "" {
 		name = fn.Name
+	}
+	if name == "" && len(fn.Bound) == 0 {
+		name = f.Via // unnamed and never bound globally: known by the symbol it came through
 	}
 	in.push(Frame{Name: name, Site: site, Kind: FnFunction, Anon: fn.Name == "" && name == "", Fn: fn})
 	defer in.pop()
